@@ -22,9 +22,8 @@ theorem map_stripLod_redundant (ρ : Redundant) (L : List MeshLod) :
 theorem stripMD_redundant (ρ : Redundant) (d : ModelData) : stripMD (ρ.md d) = stripMD d := by
   simp only [stripMD, Redundant.md, map_stripLod_redundant]
 
-theorem stripFH_redundant (ρ : Redundant) (f : FileHeader)
-    (hlc : ρ.fileLodCount f.lodCount = f.lodCount) : stripFH (ρ.fh f) = stripFH f := by
-  simp only [stripFH, Redundant.fh, hlc]
+theorem stripFH_redundant (ρ : Redundant) (f : FileHeader) : stripFH (ρ.fh f) = stripFH f := by
+  simp only [stripFH, Redundant.fh]
 
 theorem lodAt_redundant (ρ : Redundant) (L : List MeshLod) (i : Nat) :
     (lodAt (ρ.lods 0 L) i).meshIndex = (lodAt L i).meshIndex ∧
@@ -35,23 +34,18 @@ theorem lodAt_redundant (ρ : Redundant) (L : List MeshLod) (i : Nat) :
   | none => exact ⟨rfl, rfl⟩
   | some x => exact ⟨rfl, rfl⟩
 
-/-- the model parsed from `encodeMdlR a ρ` represents `a`, provided the file header's LOD count is
-kept -/
+/-- the model parsed from `encodeMdlR a ρ` represents `a` (`Rep` forgets every field `ρ` replaces) -/
 theorem rep_initialR (a : AbstractModel) (h : WF a = true) (ρ : Redundant)
-    (hlc : ρ.fileLodCount a.lodCount = a.lodCount) (v : View) (hv : view a = some v) :
-    Rep a (parsedR a ρ v) := by
+    (v : View) (hv : view a = some v) : Rep a (parsedR a ρ v) := by
   have r := rep_initial a h v hv
-  exact ⟨(stripMD_redundant ρ _).trans r.md, (stripFH_redundant ρ _ hlc).trans r.fh, r.parts,
+  exact ⟨(stripMD_redundant ρ _).trans r.md, (stripFH_redundant ρ _).trans r.fh, r.parts,
     r.bones, r.mats⟩
 
 theorem starts_initialR (a : AbstractModel) (h : WF a = true) (hcan : Canonical a = true)
-    (ρ : Redundant) (hlc : ρ.fileLodCount a.lodCount = a.lodCount) (v : View)
-    (hv : view a = some v) : StartsFromSubmesh (parsedR a ρ v) := by
+    (ρ : Redundant) (v : View) (hv : view a = some v) : StartsFromSubmesh (parsedR a ρ v) := by
   have s := starts_initial a h hcan v hv
   intro i hi d hd
-  have hi' : i < a.lodCount.toNat := by
-    have : (parsedR a ρ v).fileHeader.lodCount = a.lodCount := hlc
-    rw [this] at hi; exact hi
+  have hi' : i < (parsedOf a v).lods.length := hi
   obtain ⟨e1, e2⟩ := lodAt_redundant ρ (modelData a).lods i
   have hd' : d < (lodAt (parsedOf a v).modelData.lods i).meshCount.toNat := by
     have : (lodAt (parsedR a ρ v).modelData.lods i).meshCount =
@@ -93,7 +87,7 @@ LOD count kept): after a non-empty history of consistently supplied edits that r
 file re-parses as `view a'`; the header flags are all ok when the size slots `ρ` stores for the
 LODs not in use are 0 (those slots are never rewritten) -/
 theorem edit_then_parseR (a : AbstractModel) (h : WF a = true) (hcan : Canonical a = true)
-    (ρ : Redundant) (hlc : ρ.fileLodCount a.lodCount = a.lodCount)
+    (ρ : Redundant)
     (v0 : View) (hv0 : view a = some v0) (es : List AEdit) (hne : es ≠ [])
     (hes : editsOk2 a es = true) (a' : AbstractModel) (ha' : applyEdits a es = some a')
     (ces : List Edit) (hces : cedits a es = some ces)
@@ -105,17 +99,17 @@ theorem edit_then_parseR (a : AbstractModel) (h : WF a = true) (hcan : Canonical
       m1.fileHeader = mE.fileHeader ∧ m1.modelData = mE.modelData ∧ m1.view = v ∧
       (UnusedEmpty a.lodCount.toNat (ρ.fh (fileHeader a)) →
         headerFlags m1.fileHeader buf.length m1.lods = HeaderFlags.allOk) := by
-  have hrep0 : Rep a (parsedR a ρ v0) := rep_initialR a h ρ hlc v0 hv0
-  have hlc0 : (parsedR a ρ v0).fileHeader.lodCount = a.lodCount := hlc
-  have hdis : RangesDisjoint (parsedR a ρ v0).modelData.lods
-      (parsedR a ρ v0).fileHeader.lodCount.toNat := by
-    rw [hlc0]; exact rep_rangesDisjoint h hrep0
+  have hrep0 : Rep a (parsedR a ρ v0) := rep_initialR a h ρ v0 hv0
+  have hdis : RangesDisjoint (parsedR a ρ v0).modelData.lods (parsedR a ρ v0).lods.length :=
+    rep_rangesDisjoint' h hrep0
   obtain ⟨hrep, hsm⟩ := rep_history2 es a a' (parsedR a ρ v0) mE ces
-    (small_of_wf a h) hrep0 (starts_initialR a h hcan ρ hlc v0 hv0) hdis hes ha' hces hE
+    (small_of_wf a h) hrep0 (starts_initialR a h hcan ρ v0 hv0) hdis hes ha' hces hE
   have hlca : a'.lodCount = a.lodCount := by
-    have e1 : mE.fileHeader.lodCount = a'.lodCount := (congrArg FileHeader.lodCount hrep.fh :)
-    have e2 := (history_frame ces (parsedR a ρ v0) mE hE).lodCount
-    rw [← e1, e2]; exact hlc0
+    apply UInt8.toNat_inj.mp
+    have e1 := rep_parts_length h' hrep
+    have e2 := (history_frame ces (parsedR a ρ v0) mE hE).partsLen
+    have e3 : (parsedR a ρ v0).lods.length = a.lodCount.toNat := parsedOf_lods_length a h v0 hv0
+    omega
   have hcne := cedits_ne_nil es a ces hne hces
   obtain ⟨hok, hst⟩ := history_last ces hcne (parsedR a ρ v0) mE hdis hE
   have h'' := wf_relayout a' h' hlen'
@@ -134,15 +128,14 @@ theorem edit_then_parseR (a : AbstractModel) (h : WF a = true) (hcan : Canonical
 
 /-- … and under `editsFit` the edit calls return -/
 theorem edits_return_initialR (a : AbstractModel) (h : WF a = true) (hcan : Canonical a = true)
-    (ρ : Redundant) (hlc : ρ.fileLodCount a.lodCount = a.lodCount)
+    (ρ : Redundant)
     (v0 : View) (hv0 : view a = some v0) (es : List AEdit) (hes : editsOk2 a es = true)
     (hfit : editsFit a es = true) (a' : AbstractModel) (ha' : applyEdits a es = some a')
     (ces : List Edit) (hces : cedits a es = some ces) :
     ∃ mE, ces.foldlM Mdl.applyEdit (parsedR a ρ v0) = .ok mE := by
-  have hrep0 : Rep a (parsedR a ρ v0) := rep_initialR a h ρ hlc v0 hv0
-  have hlc0 : (parsedR a ρ v0).fileHeader.lodCount = a.lodCount := hlc
+  have hrep0 : Rep a (parsedR a ρ v0) := rep_initialR a h ρ v0 hv0
   exact edits_return es a a' (parsedR a ρ v0) ces (small_of_wf a h) (wf_facts a h).lods3 hrep0
-    (starts_initialR a h hcan ρ hlc v0 hv0) (by rw [hlc0]; exact rep_rangesDisjoint h hrep0)
+    (starts_initialR a h hcan ρ v0 hv0) (rep_rangesDisjoint' h hrep0)
     hes hfit ha' hces
 
 end Physis.Mdl
